@@ -117,6 +117,8 @@ func runC19(c *Ctx) {
 	}
 	c.packageVarsReadOnly("R19.2")
 	c.ruleNoSharedCaptures("R19.3")
+	// a copied mutex protects nothing
+	c.ruleNoStateCopies("R19.4")
 }
 
 // concurrentLiterals: function literals that several goroutines may execute at
